@@ -2,9 +2,9 @@
    section 8): reads integer lists, converts them to Coq's Z, calls the
    extracted functions, prints integer lists.
 
-   usage: driver world <fixed:0|1> <histories> <impl-transcripts>
-   output per history:  model transcript line, then a verdict line
-     "V <eq> <complete> <acc_pos> <acc_code> <c01d> <c02d>"              *)
+   world output per history:  model transcript line, then a verdict line
+     "V <eq> <complete> <acc_pos> <acc_code> <c01d> <c02d>"
+   (usage: see the end of the file)                                     *)
 open Model
 
 let rec pos_of_int (n : int) : positive =
@@ -47,6 +47,14 @@ let run_derive () =
    with End_of_file -> ());
   close_in f
 
+let print_zs prefix (v : z list) =
+  print_string (prefix ^ String.concat " " (List.map (fun x -> string_of_int (int_of_z x)) v));
+  print_newline ()
+
+(* usage: driver world <fixed:0|1> <histories> <impl-transcripts>
+          driver dispatch <histories> <impl-transcripts>
+   dispatch output per history: model transcript line, then
+     "V <tree_eq> <decl_eq> <probe_eq> <panic_eq> <nlogs> <nbad> <first_bad_code> <counter_violations> <panics>" *)
 let run_world () =
   let fixed = Sys.argv.(2) <> "0" in
   let hf = open_in Sys.argv.(3) in
@@ -60,9 +68,21 @@ let run_world () =
        let v = verdict h t in
        print_string (line_of_transcript m);
        print_newline ();
-       print_string ("V " ^ (if eq then "1" else "0") ^ " "
-                     ^ String.concat " " (List.map (fun x -> string_of_int (int_of_z x)) v));
-       print_newline ()
+       print_zs ("V " ^ (if eq then "1" else "0") ^ " ") v
+     done
+   with End_of_file -> ());
+  close_in hf; close_in tf
+
+let run_dispatch () =
+  let hf = open_in Sys.argv.(2) in
+  let tf = open_in Sys.argv.(3) in
+  (try
+     while true do
+       let h = List.map z_of_int (ints_of_line (input_line hf)) in
+       let t = transcript_of_line (input_line tf) in
+       print_string (line_of_transcript (dispatch_model h));
+       print_newline ();
+       print_zs "V " (dispatch_verdict h t)
      done
    with End_of_file -> ());
   close_in hf; close_in tf
@@ -70,5 +90,6 @@ let run_world () =
 let () =
   match Sys.argv.(1) with
   | "world" -> run_world ()
+  | "dispatch" -> run_dispatch ()
   | "derive" -> run_derive ()
   | d -> failwith ("unknown domain " ^ d)
